@@ -124,15 +124,17 @@ impl<'a> W<'a> {
         match k {
             // never runs: the body may be anything, also nothing
             0 => {
-                let cond = if self.r.chance(1, 2) {
-                    Expr::Bool(false)
-                } else {
-                    let mut l = self.expr(Hint::Int, depth + 1);
-                    if matches!(l, Expr::Function { .. }) {
-                        // the parser refuses a function literal as the left operand of an operator (DESIGN 4.3(2))
-                        l = self.leaf(Hint::Int);
+                // a condition that is false whatever the operands are (a comparison of a pure expression with itself, a
+                // false literal): an arbitrary integer expression against a constant can come out true, and an empty body
+                // then never ends
+                let cond = match self.r.below(4) {
+                    0 | 1 => Expr::Bool(false),
+                    2 => infix(Expr::Int(self.r.range(1, 9)), Op::Lt, Expr::Int(0)),
+                    _ => {
+                        let x = self.leaf(Hint::Int);
+                        let x = if matches!(x, Expr::Int(_) | Expr::Ident(_)) { x } else { Expr::Int(3) };
+                        infix(x.clone(), Op::Lt, x)
                     }
-                    infix(l, Op::Lt, int(-100))
                 };
                 self.loop_depth += 1;
                 let body = self.block(2, depth);
@@ -307,10 +309,7 @@ impl<'a> W<'a> {
                 let (pre, w) = self.while_expr(depth, true);
                 match pre {
                     Some(p) => {
-                        if let Stmt::Let(n, _) = &p {
-                            let n = n.clone();
-                            self.declare(&n);
-                        }
+                        // (the counter is not entered into the visible names: no generated statement may assign it)
                         // counter and loop side by side in the current statement list: wrap only sometimes
                         if self.r.chance(1, 3) {
                             Stmt::Block(vec![p, Stmt::Expr(w)])
